@@ -161,10 +161,6 @@ func callableMatrix() []callCase {
 	var all []callCase
 	globals := callableGlobals()
 	sts := storages()
-	byName := map[string]storage{}
-	for _, st := range sts {
-		byName[st.name] = st
-	}
 	for _, k := range callKinds() {
 		for _, st := range sts {
 			if !applies(k, st) {
